@@ -18,6 +18,8 @@ import time
 VERIF = os.path.dirname(os.path.dirname(os.path.abspath(__file__)))
 REPO = os.environ.get("VERIF_REPO", "/repo")
 SPEC = os.path.join(VERIF, "spec")
+# where evidence/ and replays/ are written (redirected while a seeded change is being tried)
+OUT = os.environ.get("VERIF_OUT", VERIF)
 TLA_JAR = "/opt/veriftools/tla/tla2tools.jar"
 TLA_DEPS = "/opt/veriftools/tla/CommunityModules-deps.jar"
 NCPU = min(16, os.cpu_count() or 1)
@@ -70,7 +72,7 @@ class Ctx(object):
         blob = json.dumps({"property": self.pid, "kind": kind, "detail": detail},
                           sort_keys=True, default=str)
         sha = hashlib.sha1(blob.encode()).hexdigest()[:16]
-        d = os.path.join(VERIF, "replays", self.pid)
+        d = os.path.join(OUT, "replays", self.pid)
         path = os.path.join(d, sha + ".json")
         self.violations.append({"kind": kind, "replay": path})
         if len(self.violations) <= 5:
@@ -304,8 +306,8 @@ def write_evidence(ctx, level="model_checking", extra=None, rule=None):
         "wall_s": round(time.time() - ctx.t0, 2),
         "violations": len(ctx.violations),
     }
-    os.makedirs(os.path.join(VERIF, "evidence"), exist_ok=True)
-    path = os.path.join(VERIF, "evidence", ctx.pid + ".json")
+    os.makedirs(os.path.join(OUT, "evidence"), exist_ok=True)
+    path = os.path.join(OUT, "evidence", ctx.pid + ".json")
     tmp = path + ".tmp"
     with open(tmp, "w") as f:
         json.dump(ev, f, indent=1, default=str, sort_keys=True)
